@@ -55,6 +55,9 @@ func (ir *ifdReader) DecodeJPEGIfd(r io.Reader, h meta.ExifHeader) (err error) {
 		ir.logger.Info().Str("imageType", h.ImageType.String()).Uint32("tiffHeader", h.TiffHeaderOffset).Uint32("firstIfdOffset", h.FirstIfdOffset).Uint32("exifLength", h.ExifLength).Send()
 	}
 	ir.ResetReader(r)
+	// The reader stands at the Tiff header of this segment: positions start
+	// over, also for the second and later Exif segments of a file.
+	ir.po = 0
 	ir.Exif.ImageType = h.ImageType
 	ir.firstIfdOffset = h.FirstIfdOffset
 	ir.exifLength = h.ExifLength
